@@ -690,6 +690,13 @@ func CheckMod(p *vreport.Part, a *Adapter, c Case) {
 			return
 		}
 		if df := viewDiff(v1, rv); df != "" {
+			if a.UnstableDiff != "" && a.DiffClass != nil && a.DiffClass(c, v1.Body, rv.Body) == a.UnstableDiff {
+				// the codec's run-to-run difference (reported by the fidelity part under this
+				// key): which attempt shows it is chance, so it must not shape the key
+				p.Outcome(a.UnstableDiff)
+				p.Violation(a.key(c, a.UnstableDiff), fmt.Sprintf("mod %s, attempt %d: %s", c.Mod, t+1, df), c)
+				return
+			}
 			fail("reencoded-lost-modification", "re-encoded-frame-does-not-carry-the-modified-content", "Encode returned no error; the reference parser reads back "+df)
 			return
 		}
